@@ -191,6 +191,14 @@ def keysFrom (m : Mode) (L : Nat) : Bool → Nat → Nat → Nat → List APart 
 def iterLe (a b : Elem) : Bool :=
   a.start < b.start || (a.start == b.start && classRank a.cls ≤ classRank b.cls)
 
+/-- stable insertion: before the first element that does not come strictly earlier -/
+def insertBy (le : Elem → Elem → Bool) (x : Elem) : List Elem → List Elem
+  | [] => [x]
+  | y :: ys => if le x y then x :: y :: ys else y :: insertBy le x ys
+
+/-- stable sort (structural recursion, so that it also evaluates inside the kernel) -/
+def isort (le : Elem → Elem → Bool) (l : List Elem) : List Elem := l.foldr (insertBy le) []
+
 /-- every GenericNote carries a voice (precondition of the property; the code raises otherwise) -/
 def voicesGiven (ps : List APart) : Bool :=
   ps.all fun p => p.elems.all fun e => !isGeneric e.cls || e.voice.isSome
@@ -209,7 +217,7 @@ def mergeParts (m : Mode) (parts : List APart) : Option Result :=
     let L := lcmList (parts.map (·.divs))
     if parts.all (fun p => 0 < p.divs) && voicesGiven parts
         && (m != .auto || keysFrom m L true 0 0 0 parts) then
-      some (.merged L ((mergeFrom m L true 0 0 0 parts).mergeSort iterLe))
+      some (.merged L (isort iterLe (mergeFrom m L true 0 0 0 parts)))
     else none
 
 def merge (m : Mode) (s : Shape) : Option Result := mergeParts m (iterParts s)
@@ -238,7 +246,7 @@ def image (m : Mode) (L : Nat) (ps : List APart) (i : Nat) (p : APart) (e : Elem
 def points (es : List Elem) : List Nat := uniq (es.map (·.start) ++ es.filterMap (·.stop))
 
 /-- `e.duration` -/
-def durOf (e : Elem) : Option Int := e.stop.map fun s => (s : Int) - (e.start : Int)
+def durOf (e : Elem) : Option Int := e.stop.map fun (s : Nat) => (s : Int) - (e.start : Int)
 
 def findOid (es : List Elem) (k : Nat) : Option Elem := es.find? fun e => e.oid == k
 
